@@ -33,7 +33,7 @@ def build_trace(seed, n_chains, clustered, tmp, iters=6, n_mut=None, particles=4
     inputs.write_table(rows, in_file)
     cluster_file = None
     if clustered:
-        crow, _ = inputs.make_clusters(rng, rows, 3)
+        crow, _ = inputs.make_clusters(rng, rows, 3, per_mutation=seed % 4 == 2, shuffle=seed % 2 == 1)
         cluster_file = os.path.join(tmp, "cl_%d.tsv" % n_chains)
         inputs.write_table(crow, cluster_file)
         if info is not None:
